@@ -99,6 +99,22 @@ def _is_community_lookup(c):
     return head(f) == "attr" and f[2].startswith("community_")
 
 
+def _no_thinning(r, rule, q):
+    from ..eff import DROP_METHODS
+    from ..terms import walk as _walk
+    s = r.A.summary(q)
+    seen = set()
+    for e in s.events:
+        if e.kind != "call":
+            continue
+        c = strip(e["term"])
+        f = strip(c[1])
+        if head(f) == "attr" and f[2] in (DROP_METHODS - {"filter", "query", "drop"}) and any(x[0] == "param" for x in _walk(f[1])) and f[2] not in seen:
+            seen.add(f[2])
+            r.rep.ob(rule, q, False, "every node counts as a member of its cluster", where_of(r.P, s.func, e.node), expected="cluster sizes counted over all nodes",
+                     found=f"{show(c, 90)} leaves rows of the node table out before the sizes are counted", key=f"thins the node table .{f[2]}()", lint=True)
+
+
 def run(r):
     rep = r.rep
     rep.explanation = "The two clustering functions were reduced to canonical call terms and compared with the specification; the edge subscript was rank-checked; the ordering of simplify() was checked."
@@ -107,6 +123,9 @@ def run(r):
     # purity first: cheap, robust, and a recorded violation takes precedence over a later 'cannot decide'
     check_pure_params(r, "C15-PURE", ["pyrepseq.distance.hierarchical_clustering", "pyrepseq.clustering.graph_clustering"])
     rep.floor("C15-PURE", 6)
+    # the size of a cluster is the number of its *nodes* (two copies of one sequence are two members): nothing may thin the node table out
+    # before the sizes are counted (drop_duplicates / dropna / head ... on a table built from the arguments)
+    _no_thinning(r, "C15-GRAPH", "pyrepseq.clustering.graph_clustering")
     rw = std_rewrites(ident=("numpy.asarray", "numpy.array")) + [canon_binders]
     compare_function(r, "C15-PIPE", "pyrepseq.distance.hierarchical_clustering", SPEC, "hierarchical_clustering returns (linkage of the metric's condensed distances, fcluster of that linkage), default metric as in pcDelta",
                      eq=Equiv(rewrites=rw, modelled={"scipy.cluster.hierarchy.linkage", "scipy.cluster.hierarchy.fcluster", ".calc_pdist_vector", ".calc_cdist_matrix"}), key="hierarchical pipeline")
